@@ -185,6 +185,40 @@ def check_C01(ctx):
                    'distinct (call sequence, arguments) that contain a write and at least one of flush/compact/reopen/retire')
 
 
+def gated_numbering(ctx):
+    """C08 under the interleavings of C06's gated scenarios: the flush path is parked at each step of the rotation while clients
+    write; the hook-event stream of each run must keep the numbering rules of TRACE_StoreProto (every record gets exactly the next
+    number, the counter is handed over exactly)."""
+    from props import lin
+    import subprocess
+    n = 0
+    for site in ['sm.flush.snapshot', 'sm.rotate.begin', 'sm.rotate.marked', 'sm.rotate.oldsafe', 'wal.new', 'sm.rotate.created',
+                 'sm.rotate.swapped', 'wal.close.pre', 'sm.rotate.closed', 'sm.flush.table.renamed']:
+        for imm in (False, True):
+            d = ctx.sub(f'c08-gated-{site}-{int(imm)}')
+            hooks = os.path.join(d, 'hooks.ndjson')
+            for f in (hooks,):
+                if os.path.exists(f):
+                    os.remove(f)
+            import shutil
+            shutil.rmtree(os.path.join(d, 'db'), ignore_errors=True)
+            args = [ctx.kvh(), 'lin-gated', '-dir', os.path.join(d, 'db'), '-out', os.path.join(d, 'trace.ndjson'), '-site', site] + (['-imm'] if imm else [])
+            p = subprocess.run(args, capture_output=True, text=True, timeout=120, env=dict(os.environ, VERIF_TRACE=hooks))
+            if p.returncode == 5 or not os.path.exists(hooks):
+                continue
+            n += 1
+            ok, hw, st, outp = tlc_trace(ctx, 'TRACE_StoreProto', 'TRACE_StoreProto.cfg', hooks, timeout=300, tag=f'c08-gated-{site}-{int(imm)}')
+            if not ok:
+                lines = open(hooks).read().splitlines()
+                ev = json.loads(lines[hw - 1]) if hw and hw <= len(lines) else {}
+                ctx.violations.append({'what': f"flush path parked at {site}: the numbering rules are broken at event {ev.get('site')}(a={ev.get('a')}, b={ev.get('b')})",
+                                       'replay': save_replay(ctx, 'store-gated', {'site': site, 'imm': imm})})
+    if n < 10:
+        raise Infra(f'only {n} gated numbering scenarios ran')
+    ctx.traces += n
+    ctx.notes['gated_numbering_scenarios'] = n
+
+
 def check_C08(ctx):
     ctx.assumptions += ['bounded model (constants in the cfg files named under mc_runs)',
                         'log retirement (replication retention) is outside C08: once the files are gone nothing records their numbers']
@@ -198,6 +232,7 @@ def check_C08(ctx):
     selftest_seq(ctx, behs[-20:], flags)
     selftest_hooks(ctx, behs[-20:])
     ctx.traces += run_replays(ctx, 'C08', behs, flags, CLASSES[:3], 'c08')
+    gated_numbering(ctx)
     ctx.evaluations = ctx.traces
     write_evidence(ctx, 'model_checking',
                    'behaviours drawn by TLC simulation of GEN_Store (no log retirement) replayed under 3 configuration classes; after every '
@@ -263,6 +298,11 @@ def nontrivial_c12(ctx, behs):
 
 
 def replay_saved(ctx, payload):
+    if 'site' in payload:
+        ctx.violations = []
+        gated_numbering(ctx)
+        bad = [v for v in ctx.violations if payload['site'] in v['what']]
+        return {'what': bad[0]['what']} if bad else None
     cls = tuple(payload['class'])
     mm, _ = replay_class(ctx, [payload['behaviour']], (cls[0], cls[1], cls[2], 1.0), payload['flags'], 'replay')
     return mm[0][0] if mm else None
